@@ -147,6 +147,19 @@ func c13Program(id string, strs []string, k0 int) *Prog {
 			ix := &E{K: "index", Ty: TUint8, X: v(cn, bt), I: lit(TInt, int64(i))}
 			body = append(body, pr("cpb", ix, &E{K: "bin", Ty: TUint8, Op: "+", L: ix, R: lit(TUint8, 200)}))
 		}
+		// a second []byte(s) after the first result was written to is again the bytes of s
+		b2 := fmt.Sprintf("bb%d", n)
+		body = append(body, &S{K: "decl", Names: []string{b2}, Exprs: []*E{{K: "conv", Ty: bt, X: sv}}})
+		body = append(body, pr("by2", cmp("==", &E{K: "conv", Ty: TString, X: v(b2, bt)}, sv), lenOf(v(b2, bt))))
+		// two literals of different kinds (raw, interpreted, escapes) joined: the value is the concatenation of what each denotes
+		{
+			fixed := []struct{ s, spell string }{{"\\n", "`\\n`"}, {"\n", `"\n"`}, {"C:\\t", "`C:\\t`"}, {"\"q\"", "`\"q\"`"}, {"a\tb", `"a\tb"`}}[n%5]
+			l1 := &E{K: "str", Ty: TString, S: s, Spell: c13Spell(s, k0+n+1)}
+			l2 := &E{K: "str", Ty: TString, S: fixed.s, Spell: fixed.spell}
+			cat := &E{K: "bin", Ty: TString, Op: "+", L: l1, R: l2}
+			cat2 := &E{K: "bin", Ty: TString, Op: "+", L: &E{K: "str", Ty: TString, S: fixed.s, Spell: fixed.spell}, R: &E{K: "str", Ty: TString, S: s, Spell: c13Spell(s, k0+n+2)}}
+			body = append(body, pr("lit+lit", lenOf(cat), cat, lenOf(cat2), cat2))
+		}
 		// append(b, s...) appends the bytes of s
 		an := fmt.Sprintf("ab%d", n)
 		body = append(body, &S{K: "decl", Names: []string{an}, Exprs: []*E{{K: "append", Ty: bt, X: &E{K: "conv", Ty: bt, X: &E{K: "str", Ty: TString, S: "x"}}, Args: []*E{sv}, Spread: true}}})
